@@ -251,13 +251,15 @@ type Sel struct {
 	Joins      []Join
 	Where      *X
 	GroupBy    []X
-	Having     *X
-	OrderBy    []OrderItem
-	Limit      *int
-	Offset     *int
-	OffsetRows bool
-	Fetch      *Fetch
-	For        *For
+	// GroupByWith is "", "ROLLUP" or "CUBE": the MySQL suffix form GROUP BY a, b WITH ROLLUP (same tree as ROLLUP(a, b))
+	GroupByWith string
+	Having      *X
+	OrderBy     []OrderItem
+	Limit       *int
+	Offset      *int
+	OffsetRows  bool
+	Fetch       *Fetch
+	For         *For
 }
 
 // Build renders the SELECT.
@@ -361,6 +363,16 @@ func (s Sel) Build() S {
 	if len(s.GroupBy) > 0 {
 		t = cat(t, kws("GROUP BY"), commaList(s.GroupBy, false))
 		n.GroupBy = exprs(s.GroupBy)
+		switch s.GroupByWith {
+		case "ROLLUP":
+			t = cat(t, kws("WITH ROLLUP"))
+			n.GroupBy = []ast.Expression{&ast.RollupExpression{Expressions: exprs(s.GroupBy)}}
+			fs = append(fs, []string{"select.group-by.with-rollup", "select.group-by.rollup"})
+		case "CUBE":
+			t = cat(t, kws("WITH CUBE"))
+			n.GroupBy = []ast.Expression{&ast.CubeExpression{Expressions: exprs(s.GroupBy)}}
+			fs = append(fs, []string{"select.group-by.with-cube", "select.group-by.cube"})
+		}
 		fs = append(fs, []string{"select.group-by"}, allFeat(s.GroupBy))
 		names = append(names, allNames(s.GroupBy)...)
 	}
